@@ -1,6 +1,7 @@
 package comp
 
 import (
+	"strconv"
 	"fmt"
 	"math/rand"
 	"reflect"
@@ -76,6 +77,74 @@ func mutate(pc *types.ProcessConfig, field string) bool {
 		default:
 			return false
 		}
+	default:
+		return false
+	}
+	return true
+}
+
+// variant sets one nested, launch-relevant value of the configuration to the k-th of a list of
+// pairwise different values (group: readiness / liveness probe, shutdown parameters, restart policy,
+// dependency, environment).
+func variant(pc *types.ProcessConfig, group string, k int) bool {
+	probe := func(k int) *health.Probe {
+		switch k {
+		case 0:
+			return nil
+		case 1:
+			return &health.Probe{Exec: &health.ExecProbe{Command: "true"}, PeriodSeconds: 5}
+		case 2:
+			return &health.Probe{Exec: &health.ExecProbe{Command: "false"}, PeriodSeconds: 5}
+		case 3:
+			return &health.Probe{HttpGet: &health.HttpProbe{Host: "h", Port: "80", Scheme: "http", Path: "/"}, PeriodSeconds: 5}
+		case 4:
+			return &health.Probe{HttpGet: &health.HttpProbe{Host: "h", Port: "81", Scheme: "http", Path: "/"}, PeriodSeconds: 5}
+		case 5:
+			return &health.Probe{Exec: &health.ExecProbe{Command: "true"}, PeriodSeconds: 7}
+		case 6:
+			return &health.Probe{Exec: &health.ExecProbe{Command: "true"}, HttpGet: &health.HttpProbe{Host: "h", Port: "80", Scheme: "http", Path: "/"}, PeriodSeconds: 5}
+		case 7:
+			return &health.Probe{Exec: &health.ExecProbe{Command: "true", WorkingDir: "/"}, PeriodSeconds: 5}
+		}
+		return nil
+	}
+	switch group {
+	case "rp":
+		if k > 7 {
+			return false
+		}
+		pc.ReadinessProbe = probe(k)
+	case "lp":
+		if k > 7 {
+			return false
+		}
+		pc.LivenessProbe = probe(k)
+	case "sd":
+		l := []types.ShutDownParams{{}, {ShutDownCommand: "true"}, {ShutDownTimeout: 3}, {Signal: 2}, {ParentOnly: true}}
+		if k >= len(l) {
+			return false
+		}
+		pc.ShutDownParams = l[k]
+	case "rs":
+		l := []types.RestartPolicyConfig{{}, {Restart: types.RestartPolicyAlways}, {Restart: types.RestartPolicyAlways, BackoffSeconds: 2},
+			{Restart: types.RestartPolicyAlways, MaxRestarts: 2}, {ExitOnEnd: true}}
+		if k >= len(l) {
+			return false
+		}
+		pc.RestartPolicy = l[k]
+	case "dep":
+		l := []types.DependsOnConfig{{}, {"o": {Condition: types.ProcessConditionCompleted}}, {"o": {Condition: types.ProcessConditionStarted}},
+			{"o2": {Condition: types.ProcessConditionCompleted}}}
+		if k >= len(l) {
+			return false
+		}
+		pc.DependsOn = l[k]
+	case "env":
+		l := []types.Environment{nil, {"A=1"}, {"A=2"}, {"A=1", "B=1"}}
+		if k >= len(l) {
+			return false
+		}
+		pc.Environment = l[k]
 	default:
 		return false
 	}
@@ -163,6 +232,15 @@ func (c *updateC) Exec(op string) string {
 				return "no-such-field"
 			}
 			return fmt.Sprintf("%v", a.Compare(&b))
+		case len(w) == 4 && w[0] == "cmpv":
+			x, e1 := strconv.Atoi(w[2])
+			y, e2 := strconv.Atoi(w[3])
+			a := baseConf("p")
+			b := baseConf("p")
+			if e1 != nil || e2 != nil || x < 0 || y < 0 || !variant(&a, w[1], x) || !variant(&b, w[1], y) {
+				return "bad-op"
+			}
+			return fmt.Sprintf("%v", a.Compare(&b))
 		case len(w) == 2 && w[0] == "upinit":
 			c.sc = &scaleC{h: &supH{}}
 			c.sc.h.reset("coarse", false)
@@ -207,6 +285,13 @@ func (c *updateC) Exec(op string) string {
 func (c *updateC) Gen(r *rand.Rand, tier string, emit func(string)) {
 	for _, f := range fieldNames() {
 		emit("cmp " + f)
+	}
+	for g, n := range map[string]int{"rp": 8, "lp": 8, "sd": 5, "rs": 5, "dep": 4, "env": 4} {
+		for x := 0; x < n; x++ {
+			for y := 0; y < n; y++ {
+				emit(fmt.Sprintf("cmpv %s %d %d", g, x, y))
+			}
+		}
 	}
 	safe := []string{"Command", "Description", "Namespace", "ReadyLogLine", "Environment", "Vars", "LaunchTimeout",
 		"OriginalConfig", "DisableAnsiColors", "ShutDownParams", "RestartPolicy", "Extensions", "ReplicaNum"}
